@@ -285,6 +285,107 @@ func bulkScenario(n int) *vsched.Scenario {
 	return sc
 }
 
+// redeliverScenario: a source delivers a seed again while the reactor may still track it (another object, the same
+// ID). The reactor may accept it (the first one was finished meanwhile), or refuse it - fail-stop (a panic: nothing
+// goes on running on this pool) or with an error - but a refused insert must not keep the token it took. Three
+// threads: the producer (a, then a again), a second producer (b), the consumer that finishes what it receives.
+var realStdout = os.Stdout
+
+func redeliverScenario(tokens int) *vsched.Scenario {
+	var w *world
+	var failStop bool
+	sc := &vsched.Scenario{Name: fmt.Sprintf("t%d-seed-delivered-again", tokens)}
+	sc.Setup = func(x *vsched.Exec) {
+		reactor.VerifReset()
+		config.VerifSet(&config.Config{NoStdoutLogging: true, NoStderrLogging: true, NoFileLogging: true})
+		w = &world{seq: map[string]int{}, out: make(chan *models.Item, tokens+1), quit: make(chan struct{})}
+		failStop = false
+		os.Stdout = realStdout // a call left parked at the end of the last execution never put it back
+		x.Data = w
+	}
+	guarded := func(thread, id string) string {
+		it := newItem(id)
+		return w.call(thread, "insert", id, func() (err error) {
+			if null, e := os.OpenFile(os.DevNull, os.O_WRONLY, 0); e == nil {
+				os.Stdout = null // the refusal dumps both items
+				defer func() { os.Stdout = realStdout; null.Close() }()
+			}
+			defer func() {
+				if r := recover(); r != nil {
+					failStop = true
+					err = fmt.Errorf("panic: %v", r)
+				}
+			}()
+			return reactor.ReceiveInsert(it)
+		})
+	}
+	sc.Body = func() {
+		if err := reactor.Start(tokens, w.out); err != nil {
+			panic(err)
+		}
+		go func() { guarded("p1", "a"); guarded("p1", "a") }()
+		go func() { guarded("p2", "b") }()
+		go func() { // consumer
+			for {
+				it := <-w.out
+				w.call("cons", "finish", it.GetID(), func() error { return reactor.MarkAsFinished(it) })
+			}
+		}()
+	}
+	sc.Idle = func(p string) bool {
+		return strings.Contains(p, "recv w.out") || strings.Contains(p, "reactor.go") && strings.Contains(p, "recv r.input")
+	}
+	sc.OKEnds = []string{vsched.EndQuiescent, vsched.EndDeadlock, vsched.EndDone}
+	rest := func(x *vsched.Exec) error {
+		if failStop || !reactor.VerifAlive() {
+			return nil
+		}
+		waiting := 0
+		for _, t := range x.ParkedThreads() {
+			if strings.Contains(t.Point, "select") && strings.Contains(t.Point, "send globalReactor.tokenPool") && !t.Enabled {
+				waiting++
+			}
+		}
+		if a, b := reactor.VerifTokens(), reactor.VerifTracked(); w.inflight == waiting && a != b {
+			var h []string
+			for _, o := range w.ops {
+				h = append(h, fmt.Sprintf("%s:%s(%s)=%s", o.Thread, o.Kind, o.ID, o.Res))
+			}
+			return fmt.Errorf("refused-insert-keeps-a-token: at rest %d tokens in use but %d seeds tracked after %s", a, b, strings.Join(h, " "))
+		}
+		return nil
+	}
+	sc.AtStep = rest
+	sc.AtEnd = func(x *vsched.Exec) error {
+		if err := rest(x); err != nil || failStop {
+			return err
+		}
+		if w.inflight != 0 {
+			return fmt.Errorf("call-blocked: %d calls never returned although nothing was refused; blocked: %s", w.inflight, strings.Join(x.Blocked(), "; "))
+		}
+		return nil
+	}
+	sc.Outcome = func(x *vsched.Exec) string {
+		var parts []string
+		for _, o := range w.ops {
+			parts = append(parts, fmt.Sprintf("%s:%s(%s)=%s", o.Thread, o.Kind, o.ID, strings.SplitN(o.Res, ":", 3)[0]))
+		}
+		sort.Strings(parts)
+		return strings.Join(parts, " ")
+	}
+	sc.Horizon = time.Minute
+	sc.Signature = func(v *vsched.Violation) string {
+		if i := strings.IndexByte(v.Message, ':'); i > 0 && v.Kind != "crash" {
+			return v.Message[:i]
+		}
+		return vsched.DefaultSignature(v)
+	}
+	sc.KnownSig = func(sig string) bool { return hkit.IsListed(propID, sig) }
+	return sc
+}
+
+var redeliverTokens = []int{2, 3}
+
 var bulkTokens = []int{1000, 10000} // 10 000 tokens = ~110 k scheduler steps (the engine stops an execution at 200 k)
 
 func consumer(w *world) {
@@ -440,7 +541,7 @@ func main() {
 			}
 		}
 		vs = f
-		bulkTokens = nil
+		bulkTokens, redeliverTokens = nil, nil
 	}
 	if o, ok := a.Extra["only"]; ok {
 		var f []variant
@@ -450,7 +551,7 @@ func main() {
 			}
 		}
 		vs = f
-		bulkTokens = nil
+		bulkTokens, redeliverTokens = nil, nil
 	}
 	if a.Replay != "" {
 		replay(a.Replay, vs)
@@ -500,6 +601,24 @@ func main() {
 			}
 			hkit.Report(propID, v.Sig, map[string]any{"engine": "explore", "harness": harnessName, "bulk_tokens": n, "violation": v}, fmt.Sprintf("%s: %s: %s", r.Scenario, v.Kind, firstLine(v.Message)))
 		}
+		r.Sample = nil
+		total.Merge(r)
+	}
+	for _, n := range redeliverTokens {
+		if err := vsched.DeterminismCheck(redeliverScenario(n)); err != nil {
+			hkit.EngineError("%v", err)
+		}
+		r := vsched.Explore(redeliverScenario(n), vsched.Bounds{P: P + 1, F: 0, MaxWall: maxWall})
+		per = append(per, map[string]any{"scenario": r.Scenario, "executions": r.Executions, "states": r.States, "transitions": r.Transitions, "distinct_outcomes": len(r.Outcomes), "outcomes": vsched.SortedKeys(r.Outcomes), "ends": r.Ends, "exhaustive": r.Exhaustive, "wall_s": r.WallS})
+		for _, v := range r.Violations {
+			v := v
+			if err := vsched.Confirm(redeliverScenario(n), &v); err != nil {
+				hkit.EngineError("violation did not replay: %v", err)
+			}
+			hkit.Report(propID, v.Sig, map[string]any{"engine": "explore", "harness": harnessName, "redeliver_tokens": n, "violation": v}, fmt.Sprintf("%s: %s: %s", r.Scenario, v.Kind, firstLine(v.Message)))
+			break
+		}
+		os.Stdout = realStdout
 		r.Sample = nil
 		total.Merge(r)
 	}
@@ -628,6 +747,7 @@ func replay(path string, vs []variant) {
 	var r struct {
 		Variant   variant          `json:"variant"`
 		Bulk      int              `json:"bulk_tokens"`
+		Redeliver int              `json:"redeliver_tokens"`
 		Violation vsched.Violation `json:"violation"`
 	}
 	if err := json.Unmarshal(b, &r); err != nil {
@@ -637,7 +757,11 @@ func replay(path string, vs []variant) {
 	if r.Bulk > 0 {
 		sc = bulkScenario(r.Bulk)
 	}
+	if r.Redeliver > 0 {
+		sc = redeliverScenario(r.Redeliver)
+	}
 	v, x := vsched.Replay(sc, r.Violation.Choices)
+	os.Stdout = realStdout
 	if r.Bulk == 0 {
 		for _, s := range x.Steps {
 			fmt.Printf("  %-28s %-70s case=%d\n", s.Thread, s.Point, s.Case)
